@@ -204,6 +204,7 @@ PERSONA = {
     },
 }
 NOT_STARTED, SUCCEEDED, FAILED = 100, 200, 300
+SCAN_ACTIONS = ("node-nmap-ping-scan", "node-nmap-port-scan", "node-network-service-recon")
 
 _UC7_CACHE: Dict[str, Dict] = {}
 
@@ -348,6 +349,13 @@ def check_prob(res: CaseResult, a: Dict, hist: List, ep: int) -> int:
     return n
 
 
+def _act_key(h) -> str:
+    """Structural key of an action: its type, plus the application for install/execute (fixed names of the persona)."""
+    if h.action in ("node-application-install", "node-application-execute"):
+        return f"{h.action}:{h.parameters.get('application_name')}"
+    return h.action
+
+
 def stage_name(persona: str, v: int) -> str:
     names = {NOT_STARTED: "NOT_STARTED", SUCCEEDED: "SUCCEEDED", FAILED: "FAILED"}
     if v in names:
@@ -457,11 +465,73 @@ def check_tap(res: CaseResult, case: Dict, hist: List, stages: List[int], ep: in
                 res.violate("action-disabled-by-option:tap-001:corrupt", f"{where}: step {t} {act} with PAYLOAD.corrupt false")
     if len(set(used)) > 1:
         res.violate(f"start-node-changed:{persona}", f"{where}: nodes used in one episode {sorted(set(used))}")
+    # an action that was not answered "success" is retried or ends the chain (AbstractTAP._tap_return_handler: "Returns
+    # False if the previous action was any other state (Including Pending and Failure)"; notebooks: repeat_kill_chain_stages
+    # "Indicates if the kill_chain stage should reset upon failure or retry"). The stage variable itself moves when the
+    # stage's last action is *chosen*, so the observable statement is about what the agent does next: the next event after
+    # an unsuccessful action is the same action again (stage unchanged) or an idle step on which the chain shows
+    # FAILED / NOT_STARTED - never a different action and never a further stage change.
+    # Documented exceptions: the PROPAGATE scans ("handles simulation failure independently") and a failed exfiltration
+    # with PAYLOAD.continue_on_failed_exfil.
+    for t, h in enumerate(hist):
+        if h.action == "do-nothing" or h.response.status == "success" or h.action in SCAN_ACTIONS:
+            continue
+        if persona == "tap-001" and h.action == "c2-server-data-exfiltrate" and s["tap001"]["continue_on_failed_exfil"]:
+            continue
+        for u in range(t + 1, min(len(hist), len(stages) - 1)):
+            hu = hist[u]
+            changed = stages[u + 1] != stages[u]
+            if hu.action == "do-nothing" and not changed:
+                continue
+            retry = hu.action == h.action and _same_opts(hu.parameters, h.parameters) and not changed
+            gave_up = hu.action == "do-nothing" and stages[u + 1] in (FAILED, NOT_STARTED)
+            if not (retry or gave_up):
+                res.violate(f"proceeds-after-unsuccessful-action:{persona}:{_act_key(h)}",
+                            f"{where}: step {t} {h.action} {h.parameters} was answered {h.response.status!r} "
+                            f"({str(h.response.data)[:80]}); the next thing the agent did (step {u}) was {hu.action} "
+                            f"{hu.parameters if hu.action != h.action else '(other parameters)'} with the stage "
+                            f"{nm(stages[u])} -> {nm(stages[u + 1])} instead of retrying or failing the chain")
+            break
+    # ... and the chain may not stay SUCCEEDED when the action that completed its last stage was not answered success and the
+    # agent has had its next execution slot since (with repeat_kill_chain_stages false the next slot turns it into FAILED)
+    acts_ = [(t, h) for t, h in enumerate(hist) if h.action != "do-nothing"]
+    if acts_ and stages[-1] == SUCCEEDED:
+        t, h = acts_[-1]
+        exempt = persona == "tap-001" and h.action == "c2-server-data-exfiltrate" and s["tap001"]["continue_on_failed_exfil"]
+        if h.response.status != "success" and not exempt and len(hist) - 1 - t > f + v and \
+                all(x == SUCCEEDED for x in stages[t + 1:]):
+            res.violate(f"succeeded-after-unsuccessful-last-action:{persona}:{_act_key(h)}",
+                        f"{where}: the last action of the chain, step {t} {h.action} {h.parameters}, was answered "
+                        f"{h.response.status!r} ({str(h.response.data)[:80]}); {len(hist) - 1 - t} steps later the stage is "
+                        f"still SUCCEEDED and the action was never retried")
+    if any(h.response.status == "unreachable" for h in hist):
+        res.label("episodes-with-unreachable-red-response")
+    if any(h.response.status == "failure" for h in hist if h.action != "do-nothing"):
+        res.label("episodes-with-failed-red-response")
     return n_act, advances
 
 
 # ---------------------------------------------------------------------------------------------------------------------
 # driver
+
+
+def _react(env, blue_map: List[Dict]) -> int:
+    """Op ["k"]: a defender that reacts to what it sees. If the application the threat actor installed most recently
+    (successful node-application-install in its history) is still on that node, choose the blue action that removes it;
+    otherwise stay idle. Deterministic given the case, so the case stays a pure description of the run."""
+    ag = env.game.agents.get("attacker")
+    if ag is None:
+        return 0
+    for h in reversed(ag.history):
+        if h.action == "node-application-install" and h.response.status == "success":
+            node, app = h.parameters.get("node_name"), h.parameters.get("application_name")
+            n = env.game.simulation.network.get_node_by_hostname(node)
+            if n is not None and app in n.software_manager.software:
+                for i, a in enumerate(blue_map):
+                    if a["action"] == "node-application-remove" and a["options"] == {"node_name": node, "application_name": app}:
+                        return i
+            return 0
+    return 0
 
 
 def run_case(case: Dict) -> CaseResult:
@@ -526,7 +596,7 @@ def run_case(case: Dict) -> CaseResult:
             stages = []
             sample()
         else:
-            b = op[1] % len(blue_map)
+            b = _react(env, blue_map) if op[0] == "k" else op[1] % len(blue_map)
             if blue_map[b]["action"] in interfere_actions:
                 interfered = True
             try:
@@ -543,6 +613,8 @@ def run_case(case: Dict) -> CaseResult:
     res.label(f"fam:{fam}" if fam == "sched" else f"fam:{case['persona']}")
     if interfered:
         res.label("blue-interference")
+    if any(o[0] == "k" for o in case["ops"]):
+        res.label("has-reactive-uninstall-op")
     if episodes_with_steps >= 2:
         res.label("episodes>=2")
     if best_acts >= 2:
@@ -632,8 +704,10 @@ def prob_settings(draw, kind: str, excl, used: List[str]):
     return a
 
 
-def _ops_strategy(n_blue: int, strong: List[int], lo: int, hi: int, idle_weight: int, allow_quiet: bool):
+def _ops_strategy(n_blue: int, strong: List[int], lo: int, hi: int, idle_weight: int, allow_quiet: bool,
+                  reactive: bool = False):
     step = st.one_of(*([st.just(["s", 0])] * idle_weight),
+                     *([st.just(["k"])] if reactive else []),
                      st.sampled_from(strong).map(lambda i: ["s", i]),
                      st.integers(0, n_blue - 1).map(lambda i: ["s", i]))
 
@@ -648,6 +722,10 @@ def _ops_strategy(n_blue: int, strong: List[int], lo: int, hi: int, idle_weight:
             n = draw(st.integers(lo, hi))
             if quiet and e == 0:
                 out.extend([["s", 0]] * n)
+            elif reactive and draw(st.integers(0, 2)) == 0:
+                # "sniper" episode: the defender removes whatever the attacker installs, right after it appears, and is
+                # otherwise idle - requests aimed at the removed application come back "unreachable", not "failure"
+                out.extend(draw(st.lists(st.sampled_from([["k"], ["k"], ["k"], ["s", 0]]), min_size=n, max_size=n)))
             else:
                 out.extend(draw(st.lists(step, min_size=n, max_size=n)))
         return out
@@ -712,7 +790,7 @@ def tap_case(draw, persona: str, max_steps: int = 60, slow_nets: bool = False, e
     bm = tap_blue_map(persona)
     strong = [i for i, a in enumerate(bm) if a["action"] in TAP_INTERFERE_ACTIONS]
     case = {"fam": "tap", "persona": persona, "seed": draw(st.integers(0, 10_000)), "settings": settings,
-            "ops": draw(_ops_strategy(len(bm), strong, max(8, max_steps * 2 // 3), max_steps, 10, True))}
+            "ops": draw(_ops_strategy(len(bm), strong, max(8, max_steps * 2 // 3), max_steps, 10, True, reactive=True))}
     if used:
         case["excl"] = used
     return case
